@@ -198,6 +198,27 @@ Proof. intros z. exact (conj (re_asin_range_lemma z) (conj (re_acos_range_lemma 
 Check asin_acos_ranges : forall z : C,
   - (PI / 2) <= re (casin z) <= PI / 2 /\ 0 <= re (cacos z) <= PI /\ cadd (casin z) (cacos z) = (PI / 2, 0).
 
+(* ---- beyond the property text: ln and sqrt are also left inverses on their principal domains, and the base-b
+        logarithm inverts the power: b^(log_b z) = z ---- *)
+Theorem principal_left_inverses : forall z : C,
+  (- PI < im z <= PI -> cln (cexp z) = z) /\
+  (0 < re z -> csqrt (cmul z z) = z) /\
+  (forall b : C, z <> czero -> b <> czero -> cln b <> czero -> cpow b (clog z b) = z).
+Proof. intros z. exact (conj (ln_exp_lemma z) (conj (sqrt_of_sqr_lemma z) (fun b => pow_log_lemma z b))). Qed.
+Check principal_left_inverses : forall z : C,
+  (- PI < im z <= PI -> cln (cexp z) = z) /\
+  (0 < re z -> csqrt (cmul z z) = z) /\
+  (forall b : C, z <> czero -> b <> czero -> cln b <> czero -> cpow b (clog z b) = z).
+Example principal_left_inverses_nonvacuous :
+  - PI < im (3, - PI / 2) <= PI /\ 0 < re (2, 5) /\ (3, -3) <> czero /\ (2, 5) <> czero /\ cln (2, 0) <> czero.
+Proof.
+  pose proof PI_RGT_0 as Hpi. pose proof PI_4 as Hpi4. cbn [re im fst snd].
+  split; [lra|]. split; [lra|].
+  split; [intros H0; inversion H0; lra|]. split; [intros H0; inversion H0; lra|].
+  rewrite cln_real by lra. intros H0. inversion H0 as [H1].
+  assert (Hl : ln 1 < ln 2) by (apply ln_increasing; lra). rewrite ln_1 in Hl. lra.
+Qed.
+
 (* ---- assumption audit: one Print Assumptions per theorem, in the order of the theorems above ---- *)
 Print Assumptions polar_decomp.
 Print Assumptions exp_ln.
@@ -221,3 +242,4 @@ Print Assumptions cosh_acosh.
 Print Assumptions tanh_atanh.
 Print Assumptions reciprocal_right_inverses.
 Print Assumptions asin_acos_ranges.
+Print Assumptions principal_left_inverses.
